@@ -1,8 +1,10 @@
 """Run bookkeeping: sharded execution, violation signatures, known findings, replay files, evidence."""
+import base64
 import hashlib
 import json
 import multiprocessing as mp
 import os
+import pickle
 import subprocess
 import sys
 import time
@@ -135,14 +137,24 @@ def _init_worker():
 def _call(packed):
     fn, idx, item = packed
     try:
-        return idx, fn(item), None
+        res = fn(item)
+        if getattr(res, "viol", None):
+            # remember which shard saw each violation: if the single recorded case does not reproduce on its own (state
+            # the library kept from an earlier case of the same shard), the whole shard is the replayable witness
+            shard = {"fn": "%s:%s" % (fn.__module__, fn.__qualname__),
+                     "item_pickle_b64": base64.b64encode(pickle.dumps(item)).decode(), "item": repr(item)[:400]}
+            for v in res.viol.values():
+                v.setdefault("shard", shard)
+        return idx, res, None
     except BaseException:  # harness bug: surface it, never swallow
         return idx, None, traceback.format_exc()
 
 
-def pmap(fn, items, seed=0):
+def pmap(fn, items, seed=0, fresh=True):
     """Run fn over items in a fork pool; results returned in item order regardless of scheduling.
-    `seed` only rotates the order in which shards are *started*."""
+    `seed` only rotates the order in which shards are *started*. fresh=True (default): every item runs in a process
+    newly forked from the (pristine) parent, so that state the library keeps at module or class level cannot travel
+    from one item to the next and what a shard sees does not depend on which shards ran before it in the same worker."""
     items = list(items)
     n = len(items)
     order = list(range(n))
@@ -159,7 +171,7 @@ def pmap(fn, items, seed=0):
             results[i] = res
         return results
     ctx = mp.get_context("fork")
-    with ctx.Pool(min(NWORKERS, n), initializer=_init_worker) as pool:
+    with ctx.Pool(min(NWORKERS, n), initializer=_init_worker, maxtasksperchild=1 if fresh else None) as pool:
         for idx, res, err in pool.imap_unordered(_call, [(fn, i, items[i]) for i in order], chunksize=1):
             if err:
                 pool.terminate()
@@ -295,6 +307,15 @@ def finish(prop, tier, seed, acc, t0, coverage, assumptions, confirm=True):
         if confirm and i < 4 and v.get("args") is not None:
             outs = replay_in_subprocess(path)
             ok = all(v["sig"] in sigs for _, sigs in outs) and outs[0] == outs[1]
+            if not ok and v.get("shard"):
+                # the recorded case alone does not show it: replay the shard that saw it (same cases, same order, fresh process)
+                path = write_replay(dict(v, driver="__shard__", args=dict(v["shard"], case=v.get("args"))))
+                outs2 = replay_in_subprocess(path)
+                ok = all(v["sig"] in sigs for _, sigs in outs2) and outs2[0] == outs2[1]
+                if ok:
+                    print("  (needs the earlier cases of its shard to manifest: the replay file re-runs the shard)")
+                else:
+                    outs = outs2
             if not ok:
                 nondet = True
                 print("NONDETERMINISM property=%s sig=%s replays=%r" % (prop, v["sig"], outs))
